@@ -308,6 +308,40 @@ def guard_eval(repo: Repo) -> RuleRun:
         if not bad:
             store = op.get("chops")
             r.check(isinstance(store, dict) and len(store.get(axis, [])) == 1 and sum(len(v) for v in store.values()) == 1, ochop, f"chop stored on axis {axis} only", f"Operation.chop({axis}) leaves the store as {store!r}", key=f"Operation.chop(axis={axis}):stored")
+    # Point(position): exactly one point in 3-D space - an array of any other shape (three points, a column vector) is refused
+    pinit = repo.func("construct.point.Point.__init__")
+    for shape, bad in (((3,), False), ((2,), True), ((4,), True), ((3, 3), True), ((3, 1), True), ((1, 3), True), ((3, 2), True), ((), True)):
+        arr = Obj(f"array{shape}", shape=tuple(shape))
+
+        def arr_hook(ev, call, name):
+            nm = (name or "").split(".")[-1]
+            if nm in ("array", "asarray") and call.args:
+                return ev.eval(call.args[0])
+            if nm == "shape" and call.args:
+                v = ev.eval(call.args[0])
+                if isinstance(v, Obj) and v.has("shape"):
+                    return v.get("shape")
+            if nm == "ndim" and call.args:
+                v = ev.eval(call.args[0])
+                if isinstance(v, Obj) and v.has("shape"):
+                    return len(v.get("shape"))
+            if nm in ("len", "size") and call.args:
+                v = ev.eval(call.args[0])
+                if isinstance(v, Obj) and v.has("shape"):
+                    if nm == "size":
+                        n_ = 1
+                        for d_ in v.get("shape"):
+                            n_ *= d_
+                        return n_
+                    if not v.get("shape"):
+                        raise Raised("TypeError")
+                    return v.get("shape")[0]
+            return NO_MATCH
+
+        pt = Obj("point", cls=repo.cls("construct.point.Point"))
+        ev_p = Evaluator(repo=repo, module=pinit.module, call_hook=arr_hook)
+        res = _try(ev_p, pinit, [pt, arr])
+        expect(pinit, res, bad, f"Point(array of shape {shape})", ("PointCreationError", "TypeError", "ValueError", "IndexError"))
     # Operation.unchop: the mutator that empties an axis must refuse the axes its sibling chop() refuses - an unknown axis
     # silently grows the store by a key nothing ever reads
     ounchop = repo.func("construct.operations.operation.Operation.unchop")
